@@ -42,7 +42,8 @@ pub fn draw_cpus(rng: &mut Rng, tier: Tier, rows: usize) -> Vec<Cpu> {
     let mut cpus: Vec<Cpu> = Vec::new();
     match tier {
         Tier::Quick => {
-            cpus.extend([Some(1), None, Some(16)]);
+            // always: one CPU, the failing query, the machine's 16, and one of the two smallest parallel counts
+            cpus.extend([Some(1), None, Some(16), Some(2 + rng.below(2))]);
             let around = [
                 rows.max(2) - 1,
                 rows.max(1),
@@ -55,7 +56,7 @@ pub fn draw_cpus(rng: &mut Rng, tier: Tier, rows: usize) -> Vec<Cpu> {
             let mut picks: Vec<usize> = around.to_vec();
             rng.shuffle(&mut picks);
             for p in picks {
-                if cpus.len() >= 6 {
+                if cpus.len() >= 7 {
                     break;
                 }
                 if !cpus.contains(&Some(p)) {
